@@ -319,9 +319,32 @@ pub struct RespModel {
     pub chunks: Vec<usize>,
     #[serde(default)]
     pub hex_upper: bool,
+    /// spelling of the framing header's name: 0 canonical, 1 lower case, 2 upper case, 3 only the
+    /// first letter capital (field names are case-insensitive)
+    #[serde(default)]
+    pub name_style: u8,
+    /// what follows the colon of every header line: 0 one space, 1 nothing, 2 a tab, 3 two spaces
+    /// (optional whitespace, RFC 7230 3.2)
+    #[serde(default)]
+    pub sep_style: u8,
 }
 
 impl RespModel {
+    fn styled(&self, name: &str) -> String {
+        match self.name_style % 4 {
+            1 => name.to_ascii_lowercase(),
+            2 => name.to_ascii_uppercase(),
+            3 => {
+                let l = name.to_ascii_lowercase();
+                let mut c = l.chars();
+                c.next().map(|f| f.to_ascii_uppercase().to_string() + c.as_str()).unwrap_or_default()
+            }
+            _ => name.to_string(),
+        }
+    }
+    fn sep(&self) -> &'static str {
+        [": ", ":", ":\t", ":  "][(self.sep_style % 4) as usize]
+    }
     pub fn effective_framing(&self) -> &str {
         if no_body_status(self.status) {
             "none"
@@ -340,15 +363,15 @@ impl RespModel {
         let reason = reason_phrase(self.status).unwrap_or("Unknown");
         let mut b = format!("{} {} {}\r\n", self.version, self.status, reason).into_bytes();
         for (k, v) in &self.headers {
-            b.extend(format!("{}: {}\r\n", k, v).bytes());
+            b.extend(format!("{}{}{}\r\n", k, self.sep(), v).bytes());
         }
         match self.effective_framing() {
             "cl" => {
-                b.extend(format!("Content-Length: {}\r\n\r\n", self.body.len()).bytes());
+                b.extend(format!("{}{}{}\r\n\r\n", self.styled("Content-Length"), self.sep(), self.body.len()).bytes());
                 b.extend(&self.body);
             }
             "chunked" => {
-                b.extend(b"Transfer-Encoding: chunked\r\n\r\n");
+                b.extend(format!("{}{}chunked\r\n\r\n", self.styled("Transfer-Encoding"), self.sep()).bytes());
                 let mut pos = 0;
                 let mut sizes: Vec<usize> = Vec::new();
                 for &c in &self.chunks {
@@ -421,5 +444,5 @@ pub fn gen_resp_model(rng: &mut humsim::rng::Rng, max_body: usize) -> RespModel 
             chunks.push(1 + rng.usize_below(blen));
         }
     }
-    RespModel { version: if rng.chance(1, 5) { "HTTP/1.0".into() } else { "HTTP/1.1".into() }, status, headers, body: if framing == "none" { vec![] } else { body }, framing, chunks, hex_upper: rng.chance(1, 2) }
+    RespModel { version: if rng.chance(1, 5) { "HTTP/1.0".into() } else { "HTTP/1.1".into() }, status, headers, body: if framing == "none" { vec![] } else { body }, framing, chunks, hex_upper: rng.chance(1, 2), name_style: if rng.chance(1, 2) { rng.below(4) as u8 } else { 0 }, sep_style: if rng.chance(1, 3) { rng.below(4) as u8 } else { 0 } }
 }
